@@ -70,6 +70,12 @@ def gen(seed, tier):
             elif r < 0.35:
                 # the body only touches the offered sub-fiber: creates an element below it, writes nothing
                 acts.append([p, "touch", rng.randrange(0, n + 1)])
+        case = {"prop": PROP, "d": d, "dflt": dflt, "z": z, "a": a, "acts": acts, "kind": "owned"}
+        if rng.random() < 0.2:
+            # the source's top rank is declared uncompressed: the loop is offered every coordinate of its shape
+            case.update({"fmtA": "U", "shapeA": n})
+            yield case
+            continue
         yield {"prop": PROP, "d": d, "dflt": dflt, "z": z, "a": a, "acts": acts,
                # unowned fibers of depth >= 2 cannot know that their payloads are fibers (an empty
                # unowned fiber guesses a scalar default), so deeper destinations live in a tensor
@@ -90,7 +96,11 @@ def run(case):
     if case["kind"] == "owned":
         ids = [f"R{d - k}" for k in range(d + 1)]
         tz = ft.Tensor.fromFiber(rank_ids=ids, fiber=z, default=dflt)
-        ta = ft.Tensor.fromFiber(rank_ids=ids, fiber=a, default=dflt)
+        if case.get("fmtA") == "U":
+            ta = ft.Tensor.fromFiber(rank_ids=ids, fiber=a, shape=[case["shapeA"]] * (d + 1), default=dflt)
+            ta.setFormat(ids[0], "U")
+        else:
+            ta = ft.Tensor.fromFiber(rank_ids=ids, fiber=a, default=dflt)
         z, a = tz.getRoot(), ta.getRoot()
     a_before = (H.snapshot(a), _ranks(ta) if ta else None)
     log = []
